@@ -758,6 +758,15 @@ namespace ip {
 		// there is no connection to retransmit it on
 		if (!m_channel) return;
 
+		// a dropped segment is no longer in flight. It is counted again when
+		// it is retransmitted
+		auto it = m_outstanding_packet_sizes.find(p.seq_nr);
+		if (it != m_outstanding_packet_sizes.end())
+		{
+			m_bytes_in_flight -= it->second;
+			m_outstanding_packet_sizes.erase(it);
+		}
+
 		int remote = m_channel->remote_idx(m_bound_to);
 		p.hops = m_channel->hops[remote];
 		m_outgoing_packets.push_back(std::move(p));
